@@ -32,6 +32,10 @@ def argv_of(c, seed):
         return ["filter", "-x", o]
     if v == "having-fields":
         return ["having-fields", o, ",".join(g)]
+    if v == "having-fields-re":
+        return ["having-fields", o, g[0]]
+    if v == "grep":
+        return ["grep"] + list(o) + ["".join(g)]
     if v == "group-by":
         return ["group-by", ",".join(g)]
     if v == "uniq-a":
@@ -68,8 +72,12 @@ def run(tier, seed):
             flags += ["--records-per-batch", "1"]
         elif k % 5 == 1:
             flags += ["--records-per-batch", "2"]
+        env = {}
+        if x.get("slow"):      # one record at a time, with a pause after each (VerbsSelectCases.SlowStreams)
+            flags = (["--seed", str(seed * 7919 + k % 13)] if c["v"] in ("shuffle", "bootstrap", "sample") else []) + ["--records-per-batch", "1"]
+            env = {"MLR_VERIF_DELAY": "lines:lines.sendEnd:8000"}
         runs.append({"argv": [mlr, "--ifs", ";", "--ofs", ";"] + flags + argv_of(c, seed), "stdin": b3.dkvp(s, ";"),
-                     "timeout_ms": 10000})      # ";" so that values may contain commas (VerbsSelectCases.RUsep)
+                     "timeout_ms": 10000, "env": env})      # ";" so that values may contain commas (VerbsSelectCases.RUsep)
     res = vlib.run_cases(runs)
     vlib.confirm_timeouts(runs, res)
     obs = []
@@ -103,7 +111,7 @@ def run(tier, seed):
     rc = V.finish()
     vlib.write_evidence(PROP, tier, seed, time.time() - t0, cov, [
         "streams are bounded (<= %d records over 6 record shapes with fields a, b); counts k in {-2..3, 5}" % maxlen,
-        "grep and the regex modes of having-fields are not modelled (no string matching in TLC)",
+        "grep is modelled for literal patterns (texts as sequences of one-character strings), the regex modes of having-fields for patterns tabulated with the names they match",
         "the expectations are VerbsSelect.tla's, written from reference-verbs.md; the harness only spells verb options "
         "and splits DKVP lines",
     ], len(V.violations))
